@@ -455,13 +455,34 @@ def check_legality_matrix(ctx):
     def _const(v):
         return lambda e: isinstance(e, ast.Constant) and e.value == v
 
-    _name = lambda e: isinstance(e, ast.Name)  # noqa: E731  (the token variable, whatever it is called)
+    # the per-token variable, whatever it is called: the target of the loop over `<dim string>.split()` and
+    # the names it is copied to -- a test of the *whole* string is not a per-token test
+    token_names = set()
+    for lp_ in [x for x in ast.walk(f.node) if isinstance(x, ast.For)]:
+        it = lp_.iter
+        if isinstance(it, ast.Call) and norm(it.func) == "enumerate" and it.args:
+            it = it.args[0]
+        if isinstance(it, ast.Call) and isinstance(it.func, ast.Attribute) and it.func.attr == "split":
+            for x in ast.walk(lp_.target):
+                if isinstance(x, ast.Name):
+                    token_names.add(x.id)
+    changed_ = True
+    while changed_:
+        changed_ = False
+        for a_ in ast.walk(f.node):
+            if isinstance(a_, ast.Assign) and isinstance(a_.value, ast.Name) and a_.value.id in token_names:
+                for t_ in a_.targets:
+                    if isinstance(t_, ast.Name) and t_.id not in token_names:
+                        token_names.add(t_.id)
+                        changed_ = True
+    need(token_names, "C14.4: the per-token loop over the dim string was not found")
+    _name = lambda e: isinstance(e, ast.Name) and e.id in token_names  # noqa: E731
     txt_checks = [
         ("second multi-axis specifier", lambda s: isinstance(s, ast.If) and norm(s.test) == "index_variadic is not None" and _raises_value_error(s.body)),
         ("`...` combined with anything else", lambda s: isinstance(s, ast.If) and _is_cmp(s.test, _name, ast.NotEq, _const("...")) and _raises_value_error(s.body)),
         ("comma-separated axes", lambda s: isinstance(s, ast.If) and any(_is_cmp(x, _const(","), ast.In, _name) for x in ast.walk(s.test)) and _raises_value_error(s.body)),
         ("trailing `#`", lambda s: isinstance(s, ast.If) and isinstance(s.test, ast.Call) and isinstance(s.test.func, ast.Attribute) and s.test.func.attr == "endswith"
-            and isinstance(s.test.func.value, ast.Name) and s.test.args and _const("#")(s.test.args[0]) and _raises_value_error(s.body)),
+            and _name(s.test.func.value) and s.test.args and _const("#")(s.test.args[0]) and _raises_value_error(s.body)),
     ]
     for label, pred in txt_checks:
         hits = [s for s in ast.walk(f.node) if pred(s)]
